@@ -26,6 +26,15 @@ P = {
              "to 64 and their edits are recorded from the code and judged by the trace spec.",
         tech="TLC model checking of VT.tla + exhaustive replay into set_vt/decode + trace validation of long strands",
         ref="5/C07"),
+    "C12": dict(
+        spec="Filter, MC_Filter, Trace_Filter",
+        text="LocalBioFilter.valid is transcribed clause by clause (alphabet, run, motif and reverse complement, windowed GC with "
+             "rational bounds, short-string rule); TLC checks the last-window, window-conjunction, reverse-complement and "
+             "sub-string theorems for every string up to 4 (6) over {A,C,G,T,foreign} x 320 (240) configurations and exports both "
+             "verdicts, each replayed into a real filter object; seeded windows 5..12 with literature motifs and strings to 200 "
+             "plus constructor acceptance are recorded from the code and judged by the trace spec.",
+        tech="TLC model checking of Filter.tla + exhaustive replay into LocalBioFilter + trace validation",
+        ref="5/C12"),
     "C15": dict(
         spec="Bignum, MC_Bignum, Trace_Bignum, Ind_Mul, Ind_Div, Ind_Add",
         text="The four decimal-string helpers are transcribed as digit-serial machines shaped like the code; TLC steps them one "
